@@ -137,7 +137,37 @@ func Reach(label string) {}
 // Known declares the input class of a recorded known finding.
 func Known(id string, cond bool) {}
 
-func Note(v any) { Notes = append(Notes, fmt.Sprint(v)) }
+// Note records an observable value (bool, any integer kind as its unsigned
+// bit pattern, string, []byte; nil).  The engine and the native run render it
+// identically, which is what `vchk selftest` compares.
+func Note(v any) {
+	var s string
+	switch x := v.(type) {
+	case nil:
+		s = "nil"
+	case bool:
+		s = fmt.Sprint(x)
+	case int:
+		s = fmt.Sprint(uint64(x))
+	case int64:
+		s = fmt.Sprint(uint64(x))
+	case int32:
+		s = fmt.Sprint(uint32(x))
+	case int16:
+		s = fmt.Sprint(uint16(x))
+	case int8:
+		s = fmt.Sprint(uint8(x))
+	case uint, uint64, uint32, uint16, uint8:
+		s = fmt.Sprint(x)
+	case string:
+		s = fmt.Sprintf("%q", x)
+	case []byte:
+		s = fmt.Sprintf("%q", string(x))
+	default:
+		s = "?"
+	}
+	Notes = append(Notes, s)
+}
 
 // MaxSteps bounds the number of interpreted instructions from here on; when
 // label is non-empty exceeding it is a violation (termination properties).
